@@ -26,6 +26,11 @@ def check(tier, seed):
             return corr.search()
         proof_stage(rep, PROP_MODULE, search=search, required=REQUIRED)
         st = corr.evaluate(rep)
+        # element-wise and matrix arithmetic of all four element types, as single handlers on the real VM against M-VM (values that expose a
+        # wrong intermediate type: wrapping int products, float sums that round differently in double)
+        import op_corr
+        opst = op_corr.run_all(rep, tier, seed, only=lambda op: "_ARR_" in op)
+        rep.cov["array_arithmetic_single_handler"] = {k: v for k, v in opst.items() if k != "by_handler"}
         rep.cov.update(trusted_base=["Lean 4.33 kernel", "axioms: propext, Classical.choice, Quot.sound",
                                      "gen/numtab.py + clang-14 JSON AST (typing, macro expansion, implicit casts)",
                                      "C semantics assumed by Model/CExpr.lean (wrap-around, idiv trap, FLT_EVAL_METHOD 0, cvtt*2si)",
